@@ -69,6 +69,8 @@ class Evaluator:
         self.depth = depth
         self.shared = shared if shared is not None else {"steps": 0,
                                                         "events": []}
+        self.func = None
+        self.self_name = None
 
     @property
     def events(self):
@@ -215,9 +217,16 @@ class Evaluator:
 
     def const(self, ent):
         from .model import class_const, module_const
-        if ent.cls is not None:
-            return class_const(self.repo, ent.cls, ent.node)
-        return module_const(self.repo, ent.module, ent.node)
+        try:
+            if ent.cls is not None:
+                return class_const(self.repo, ent.cls, ent.node)
+            return module_const(self.repo, ent.module, ent.node)
+        except Unsupported:
+            raise
+        except AnalysisError:
+            # e.g. a list of classes: evaluate in the defining module
+            return Evaluator(self.repo, ent.module, None, None, self.hooks,
+                             self.depth + 1, self.shared).ev(ent.node)
 
     def compare(self, node):
         left = self.ev(node.left)
@@ -362,6 +371,23 @@ class Evaluator:
                 if not isinstance(v, Abs):
                     return {"list": list, "tuple": tuple, "set": set,
                             "sorted": sorted}[f.id](v)
+            if f.id in ("reversed", "enumerate", "zip", "range", "any", "all",
+                        "sum", "max", "min", "dict") and \
+                    not node.keywords:
+                vals = [self.ev(a) for a in node.args]
+                if not any(isinstance(v, Abs) for v in vals):
+                    r = {"reversed": reversed, "enumerate": enumerate,
+                         "zip": zip, "range": range, "any": any, "all": all,
+                         "sum": sum, "max": max, "min": min,
+                         "dict": dict}[f.id](*vals)
+                    if f.id in ("reversed", "enumerate", "zip", "range"):
+                        return list(r)
+                    return r
+            if f.id == "id" and len(node.args) == 1:
+                return id(self.ev(node.args[0]))
+            if f.id == "super" and not node.args:
+                me = self.env.get(self.self_name) if self.self_name else None
+                return ("super", self.func.owner_cls if self.func else None, me)
             if f.id == "hasattr" and len(node.args) == 2:
                 o = self.ev(node.args[0])
                 a = self.ev(node.args[1])
@@ -400,6 +426,15 @@ class Evaluator:
                             return self.inline(m, args, kwargs)
                         if m.kind == "classmethod":
                             return self.inline(m, [base] + args, kwargs)
+                if isinstance(base, tuple) and len(base) == 3 and \
+                        base[0] == "super":
+                    _, after, me = base
+                    if isinstance(me, Abs) and me.cls is not None and \
+                            after is not None:
+                        m = me.cls.find_method(f.attr, after=after)
+                        if m is not None:
+                            return self.inline(m, [me] + args, kwargs)
+                    raise Unsupported("table evaluator: super().%s" % f.attr)
                 if not isinstance(base, Abs):
                     r = self.builtin_method(base, f.attr, args)
                     if r is not NotImplemented:
@@ -438,8 +473,17 @@ class Evaluator:
                                                "items"):
             r = getattr(base, name)(*args)
             return list(r) if name != "get" else r
-        if isinstance(base, list) and name in ("index", "count"):
+        if isinstance(base, list) and name in ("index", "count", "append",
+                                               "insert", "extend", "pop",
+                                               "copy", "reverse"):
             return getattr(base, name)(*args)
+        if isinstance(base, set) and name in ("add", "copy"):
+            return getattr(base, name)(*args)
+        if isinstance(base, str) and name in ("join", "split", "format"):
+            try:
+                return getattr(base, name)(*args)
+            except Exception:
+                return NotImplemented
         return NotImplemented
 
     def isinstance(self, value, clsnode):
@@ -508,6 +552,8 @@ class Evaluator:
                 env[kw.arg] = Evaluator(self.repo, func.module).ev(d)
         sub = Evaluator(self.repo, func.module, env, None, self.hooks,
                         self.depth + 1, self.shared)
+        sub.func = func
+        sub.self_name = names[0] if (names and func.has_self) else None
         kind, val = sub.run(func.node.body, reraise=True)
         return val
 
@@ -551,10 +597,48 @@ class Evaluator:
                 for e, x in zip(t.elts, v):
                     self.env[e.id] = x
                 return
+            value = self.ev(st.value)
             if self.hooks is not None:
-                r = self.hooks.store(self, t, self.ev(st.value), st)
+                r = self.hooks.store(self, t, value, st)
                 if r is not NotImplemented:
                     return
+            if isinstance(t, ast.Attribute):
+                base = self.ev(t.value)
+                if isinstance(base, Abs):
+                    self.events.append(("store", base.label, t.attr, value))
+                    base.attrs[t.attr] = value
+                    return
+            if isinstance(t, ast.Subscript):
+                base = self.ev(t.value)
+                if isinstance(base, (list, dict)):
+                    base[self.ev(t.slice)] = value
+                    return
+            raise Unsupported("table evaluator: store %s" % unparse(t))
+        if isinstance(st, ast.AugAssign) and \
+                isinstance(st.target, ast.Attribute):
+            base = self.ev(st.target.value)
+            val = self.ev(st.value)
+            if isinstance(base, Abs) and not isinstance(val, Abs):
+                cur = base.attrs.get(st.target.attr)
+                if isinstance(cur, (int, list, str)) and \
+                        isinstance(st.op, ast.Add):
+                    new = cur + val
+                    self.events.append(("store", base.label, st.target.attr,
+                                        new))
+                    base.attrs[st.target.attr] = new
+                    return
+            raise Unsupported("table evaluator: %s" % unparse(st))
+        if isinstance(st, ast.AugAssign) and isinstance(st.target, ast.Name):
+            cur = self.ev(st.target)
+            val = self.ev(st.value)
+            if isinstance(cur, Abs) or isinstance(val, Abs):
+                raise Unsupported("table evaluator: %s" % unparse(st))
+            if isinstance(st.op, ast.Add):
+                self.env[st.target.id] = cur + val
+                return
+            if isinstance(st.op, ast.Sub):
+                self.env[st.target.id] = cur - val
+                return
         if isinstance(st, ast.Expr):
             if isinstance(st.value, (ast.Constant, ast.Name)):
                 return
